@@ -31,7 +31,8 @@ struct Index<'a> {
 }
 
 fn sampling_rates(n: usize) -> Vec<usize> {
-    let mut v = vec![1, 2, 3, n];
+    // usize::MAX: "store only the mandatory rows"; size computations must not overflow on it
+    let mut v = vec![1, 2, 3, n, usize::MAX - 1, usize::MAX];
     v.sort();
     v.dedup();
     v
@@ -120,6 +121,22 @@ fn check_search(idx: &Index, p: &[u8], cc: &mut CaseCtx) {
         Ok(r) => *r,
     };
     cc.outcome(&res);
+    // the pattern is "any double-ended iterator over &u8": iterators without an exact size hint
+    // (filter, flat_map over segments) and a chain must give the very same answer
+    let keep = |_: &&u8| true;
+    let routes = [
+        ("filter", guard(|| idx.fm_ref.backward_search(p.iter().filter(keep)))),
+        ("flat_map", guard(|| idx.fm_ref.backward_search(p.chunks(2).flat_map(|c| c.iter())))),
+        ("chain", guard(|| idx.fm_ref.backward_search(p[..p.len() / 2].iter().chain(p[p.len() / 2..].iter())))),
+    ];
+    for (route, r) in routes {
+        if r.as_ref().ok() != Some(&res) {
+            cc.violation(
+                "C05/backward_search/iterator-argument/differs-from-slice-iterator",
+                format!("text {:?} pattern {:?}: slice iterator {:?}, {} iterator {:?}", show(text), show(p), res, route, r),
+            );
+        }
+    }
     if r_owned.as_ref().ok() != Some(&res) || r_arc.as_ref().ok() != Some(&res) {
         cc.violation(
             "C05/backward_search/ownership-dependent",
